@@ -524,7 +524,7 @@ def r_wrap(ctx) -> RuleResult:
         for cs in sites(ctx, fi):
             if cs.kind == "tucan" and cs.target.fq == wh.fq and len(cs.node.args) >= 2:
                 n_lines += 1
-                chars = _last_chars(ctx, fi, cs.node.args[1])
+                chars = _last_chars(ctx, fi, _resolve_template(fi, cs.node.args[1]))
                 ok = chars is not None and cont not in chars
                 res.inst(fi.fq, f"logical line {short(cs.node.args[1], 70)} cannot end in {cont!r}", "ok" if ok else "fail", detail=f"last character ∈ {sorted(chars) if chars is not None else 'unknown'}")
                 if not ok:
@@ -634,13 +634,39 @@ def _numeric_name(fi: FuncInfo, name: str) -> bool:
 # --------------------------------------------------------------------------- R-FIELDS
 
 
+def _resolve_template(fi: FuncInfo, e: ast.expr) -> ast.expr:
+    """a local name built by `x = f"..."` followed by `x += f"..."` is the concatenation of the pieces"""
+    if isinstance(e, ast.Name):
+        defs = sorted(assigned_names(fi.node).get(e.id, []), key=lambda d: d.lineno)
+        parts = []
+        for d in defs:
+            v = d.value if isinstance(d, (ast.Assign, ast.AugAssign, ast.AnnAssign)) else None
+            if v is None or (isinstance(d, ast.AugAssign) and not isinstance(d.op, ast.Add)):
+                return e
+            if isinstance(d, ast.Assign) and parts:
+                return e
+            parts.append(v)
+        vals = []
+        for v in parts:
+            if isinstance(v, ast.JoinedStr):
+                vals += v.values
+            elif isinstance(v, ast.Constant) and isinstance(v.value, str):
+                vals.append(v)
+            else:
+                return e
+        if vals:
+            j = ast.JoinedStr(vals)
+            return ast.copy_location(j, parts[0])
+    return e
+
+
 def _template_calls(ctx, wh: FuncInfo):
     """(function, f-string) for every logical line emitted through the wrap helper"""
     out = []
     for fi in closure(ctx, "write"):
         for cs in sites(ctx, fi):
             if cs.kind == "tucan" and cs.target.fq == wh.fq and len(cs.node.args) >= 2:
-                out.append((fi, cs.node.args[1], cs.node))
+                out.append((fi, _resolve_template(fi, cs.node.args[1]), cs.node))
     return out
 
 
@@ -818,9 +844,10 @@ def _check_optional_tokens(ctx, fi: FuncInfo, res: RuleResult):
         # the reader recognises this token for the same key (one recognizer accepts it)
         tok = f"{wkw}={inside[0]}"
         acc = []
+        from .readers import pred_accepts
         for f, owner, pv, pred in preds:
             try:
-                if ceval(pred, {pv: tok}) and not ceval(pred, {pv: "C"}) and not ceval(pred, {pv: "0.000000"}):
+                if pred_accepts(pred, pv, tok) and not pred_accepts(pred, pv, "C") and not pred_accepts(pred, pv, "0.000000"):
                     acc.append(pred)      # an attribute recognizer (not a generic token filter)
             except Exception:
                 pass
